@@ -11,6 +11,8 @@ package cmap
 import (
 	"fmt"
 	"sync"
+
+	"github.com/thought-machine/please/src/verifhook"
 )
 
 // DefaultShardCount is a reasonable default shard count for large maps.
@@ -170,6 +172,7 @@ func (s *shard[K, V]) Get(key K) (val V, wait <-chan struct{}, first bool) {
 		return v.Val, v.Wait, false
 	}
 	s.l.RUnlock()
+	verifhook.Point("cmap.Get.unlocked")
 
 	s.l.Lock()
 	defer s.l.Unlock()
